@@ -358,6 +358,14 @@ unsafe impl Hal for LedgerHal {
             }
             h.live_idx.push(k);
             let inplace = h.inplace || huge;
+            if h.inplace && !huge && direction != BufferDirection::DriverToDevice && len > 0 {
+                // in place, a device-writable buffer belongs to the device from this moment: it may write
+                // it at any time, so its contents are unspecified until the completion is consumed.
+                // The platform scribbles over it at once (the same bytes a bounce buffer starts with):
+                // a driver that reads the buffer after handing it over sees them.
+                // SAFETY: the caller guarantees the buffer is valid for writes while shared.
+                unsafe { std::ptr::write_bytes(ptr, h.poison, len) };
+            }
             let mut bounce = if inplace { Vec::new() } else { vec![h.poison; len] };
             if !inplace && direction != BufferDirection::DeviceToDriver {
                 // SAFETY: caller guarantees the buffer is valid.
